@@ -390,6 +390,8 @@ impl Gen {
             Some("funding") => return Some((1, 86_400)),
             // one trading block after the other, now and then two trades in one block
             Some("blocks") => return if rng.chance(1, 12) { None } else { Some((1, *rng.pick(&[1u64, 5, 15, 60]))) },
+            // one block per step, a second or a fraction of a second apart
+            Some("seconds") => return Some((1, *rng.pick(&[0u64, 1, 1]))),
             _ => {}
         }
         if self.profile.long_busy {
